@@ -10,9 +10,13 @@ Only user classes and their instances are used as values (the sandbox has no typ
 gen_program(rng) -> (source, queries, meta)
    queries: list of (kind, function name, line, column); kind in PARAM_KINDS
    meta: {'functions': [{'name','kind','sites'}], 'classes': n}
+
+Function names are prefixed (`dp_`, `dpf`): with settings.dynamic_params_for_other_modules jedi also
+greps the files of the default project (the directory the check is started from) for the function
+name; ordinary words like `walk` occur there (`os.walk`).
 """
 
-KINDS = ['plain', 'selfrec', 'mutual', 'nested', 'plain', 'selfrec']
+KINDS = ['plain', 'selfrec', 'mutual', 'nested', 'plain', 'selfrec', 'raising']
 PARAM_KINDS = ('param', 'param2')
 
 
@@ -73,10 +77,17 @@ def build(spec, nclasses):
             s.add('def %s_h(x):' % name)
             ln = s.add('    return x')
             queries.append(('param', name + '_h', ln, 12))
+        elif kind == 'raising':
+            # one call site passes `True`: without typeshed (this sandbox) inferring it raises an
+            # AttributeError in the middle of the lookup - a failing query in the session
+            s.add('def %s(r):' % name)
+            ln = s.add('    return r')
+            queries.append(('param', name, ln, 12))
+            calls.append('%s(True)' % name)
         else:
             raise ValueError(kind)
         two = kind in ('selfrec', 'mutual')
-        for j in range(n):
+        for j in range(n if kind != 'raising' else 0):
             c = 'C%d()' % (j % nclasses)
             calls.append('%s(%s, C%d())' % (name, c, (j + 1) % nclasses) if two else '%s(%s)' % (name, c))
         meta.append({'name': name, 'kind': kind, 'sites': n})
@@ -97,9 +108,9 @@ def gen_spec(rng):
     for i, k in enumerate(kinds):
         big = rng.random() < 0.6
         big_seen = big_seen or (big and k in ('plain', 'nested'))
-        spec.append((k, 'f%d' % i, _sites(rng, big)))
+        spec.append((k, 'dpf%d' % i, _sites(rng, big)))
     if not big_seen:
-        spec.append(('plain', 'f%d' % len(spec), rng.randint(11, 16)))
+        spec.append(('plain', 'dpf%d' % len(spec), rng.randint(11, 16)))
     rng.shuffle(spec)
     return spec, 16
 
@@ -118,10 +129,11 @@ def gen_program(rng, allow_nested=True):
 def fixed_programs():
     out = []
     # 12 call sites + a self-recursive function (seeded-defect shape)
-    out.append(('dyn-sites12-selfrec',) + build([('plain', 'target', 12), ('selfrec', 'walk', 1)], 12))
-    out.append(('dyn-sites15-mutual',) + build([('mutual', 'ping', 2), ('plain', 'target', 15)], 15))
-    out.append(('dyn-two-big-selfrec',) + build([('selfrec', 'walk', 11), ('plain', 'target', 14),
-                                                 ('plain', 'other', 11)], 14))
+    out.append(('dyn-sites12-selfrec',) + build([('plain', 'dp_target', 12), ('selfrec', 'dp_walk', 1)], 12))
+    out.append(('dyn-sites15-mutual',) + build([('mutual', 'dp_ping', 2), ('plain', 'dp_target', 15)], 15))
+    out.append(('dyn-two-big-selfrec',) + build([('selfrec', 'dp_walk', 11), ('plain', 'dp_target', 14),
+                                                 ('plain', 'dp_other', 11)], 14))
+    out.append(('dyn-sites12-raising',) + build([('raising', 'dp_boom', 1), ('plain', 'dp_target', 12)], 12))
     # nested lookup (depth 2 on the unchanged code)
-    out.append(('dyn-nested14',) + build([('nested', 'target', 14)], 14))
+    out.append(('dyn-nested14',) + build([('nested', 'dp_target', 14)], 14))
     return out
